@@ -128,3 +128,9 @@ Theorem c10_tie_parse_pkm : forall p, parse_pkm p = src_parse_pkm p.
 Proof. exact tie_parse_pkm. Qed.
 Theorem c10_tie_write_pkm : forall m, write_pkm m = src_write_pkm m.
 Proof. exact tie_write_pkm. Qed.
+(* the checksum as computed by the statements of the current source: loop body of calc() folded over the table the constructor's loop builds *)
+Theorem c10_src_crc_calc_bitserial : forall v, Forall (fun b => 0 <= b < 256) v ->
+  fold_left (src_crc_step py_crc_table) v 0 = fold_left (crc_bits 8) v 0 /\ 0 <= fold_left (src_crc_step py_crc_table) v 0 < 2 ^ 32.
+Proof. exact src_crc_calc_bitserial. Qed.
+Theorem c10_src_crc_table_built : py_crc_table = map (fun i => fst (iter_bit_step 8 (0, Z.of_nat i))) (seq 0 256).
+Proof. exact src_crc_table_built. Qed.
